@@ -241,15 +241,15 @@ func c17Copy(c *Ctx, rel string) {
 			blk := e.Instr.Block()
 			switch {
 			case matches("call<math/big.NewInt>(1)", t): // also the canonical form of new(big.Int).SetInt64(1)
-				ok = ok && mustPass(zHelper, blk, nz)
+				ok = ok && exitMustPass(zHelper, e, nz)
 			case t.String() == "alloc<math/big.Int>":
-				ok = ok && mustPass(zHelper, blk, zx) && mustPass(zHelper, blk, zy)
+				ok = ok && exitMustPass(zHelper, e, zx) && exitMustPass(zHelper, e, zy)
 			case matches("obj(alloc<math/big.Int>, maybe(call<(*math/big.Int).SetInt64>(self, 1)))", t):
 				sets := ana.CallsTo(zHelper, "(*math/big.Int).SetInt64", "(*math/big.Int).SetUint64")
 				ok = ok && len(sets) == 1 && mustPass(zHelper, sets[0].Block(), nz)
 				// the zero path: the return is reachable while avoiding the non-zero edges only through both ==0 edges
 				reach := ana.ReachableAvoiding(zHelper, nz)
-				both = both && reach[blk] && mustPass(zHelper, blk, append(append([]ana.Edge{}, nz...), zx...)) && mustPass(zHelper, blk, append(append([]ana.Edge{}, nz...), zy...))
+				both = both && reach[blk] && exitMustPass(zHelper, e, append(append([]ana.Edge{}, nz...), zx...)) && exitMustPass(zHelper, e, append(append([]ana.Edge{}, nz...), zy...))
 			default:
 				ok = false
 			}
